@@ -1391,6 +1391,18 @@ class Interp:
         if target is not None:
             self.d.on_call(self, cs, ("func", target), args, kwargs, e, st)
             return self.call_func(target, args, kwargs, e, st)
+        if cs is not None and len(cs.callees) > 1 and cs.cls is None and basev is None and not cs.registry_op and not (co is not None and co.kind in ("class", "external")):
+            # a function taken from a literal dispatch table (may-call): the join over every candidate
+            out = None
+            for g in cs.callees:
+                self.d.on_call(self, cs, ("func", g), args, kwargs, e, st)
+                sc = st.copy()
+                r, s2 = self.run_function(g, self._bind(g, args, kwargs, st), sc, callnode=e)
+                keepenv = st.env
+                merged = self.join_states(st, s2)
+                st.store, st.owned, st.env = merged.store, merged.owned, keepenv
+                out = r if out is None else self.join_v(out, r, st)
+            return out if out is not None else V(self.d.unknown(e))
         if cs is not None and cs.registry_op:
             self.d.on_call(self, cs, ("registry", cs.registry_op), args, kwargs, e, st)
             out = None
